@@ -14,7 +14,12 @@ deletes features, the first one - never reopened - must answer like a scan of th
 flavour 'reversed' in which about a third of the stored features have start > end (insertion sites written start = end + 1,
 origin-spanning features of a circular sequence) - the statement's predicates are plain comparisons and apply verbatim;
 and one 'big' case per run: more than 10 000 features (most of them sharing their (start, end) with others) inside one
-query interval, every one to be returned exactly once, also by a generator consumed slowly between other queries.
+query interval, every one to be returned exactly once, also by a generator consumed slowly between other queries;
+'rewritten' cases: rows REWRITTEN after the import with other coordinates (lines repeating an ID under merge_strategy='replace'
+in create_db() / update(), add_relation() with a parent_func / child_func that moves a feature) into another genomic bin of
+every level, then every query form, judged on the coordinates now stored in the file (plain sqlite3); and databases imported
+from files that carry DIRECTIVES ('##sequence-region <seqid> <start> <end>' for the queried and for other seqids, features
+reaching beyond the declared end, query ends beyond it): directives never change what a query returns.
 """
 import os
 import random
@@ -28,6 +33,7 @@ from gvmon.models import C06 as M
 from gvmon.models import binspec as S
 from gvmon.monitors import contracts, sqltrace
 
+HOW_NAMES = ["create_db(merge_strategy='replace')", "update(merge_strategy='replace')", "add_relation(parent_func / child_func)"]
 RULE = ("feature sets of 300 (quick: 250) features on 2-4 seqids x 3 strands x 5 featuretypes with 12 parent features "
         "(children carry 1-3 Parent values), coordinates from the bin-boundary set {m*2^(17+3k)+d : |d|<=2, k=0..4} U "
         "{2^29, 2^29+2^17}+-2 U random (a 27-value focus subset per database is used for 70% of the ends); queries "
@@ -66,7 +72,23 @@ RULE = ("feature sets of 300 (quick: 250) features on 2-4 seqids x 3 strands x 5
         "and within, all_features(limit=) tuple/string, features_of_type(limit=)) over windows that cut 0-1.5% of the sites at "
         "either side, compared as id multisets with the scan; then 3 schedules on the same FeatureDB: a large region() "
         "generator consumed in chunks of 1-3000 with a complete small query between the chunks (2x), two large generators "
-        "consumed alternately (1x)")
+        "consumed alternately (1x).  'rewritten' cases: a set of 60-120 features (30% flavour 'binends') in a database FILE whose rows "
+        "are rewritten with other coordinates - mode 'create': one create_db(merge_strategy='replace') over the original lines "
+        "followed by lines repeating 20-40% of the IDs (parent features too; 15% of them twice) with coordinates shifted by "
+        "m*2^17 / 2^20 / 2^23 / 2^26, grown into a coarser bin, shrunk into a finer one, put on / across the last base of a bin of "
+        "level 0-4, across 2^29 (12%: same bin; 10% other seqid / strand, 15% other Parent values); 'update': the same lines "
+        "through 1-2 update(merge_strategy='replace') calls; 'relation': 6-15 add_relation(parent, child, 1, parent_func=, "
+        "child_func=) calls (ids or Feature objects) whose functions set such coordinates on the parent, the child or both; "
+        "'update+relation': both - then 50-70 queries (55% anchored on the rewritten rows' new coordinates, 15% on the imported "
+        "ones, 8% parents(limit=) of children of rewritten parent features; all region forms and limit= of the four apis) on "
+        "the FeatureDB that did the rewriting or (50%) on one opened afterwards; reference = the file's content read with plain "
+        "sqlite3.  Half of the databases of every flavour are imported from a file that carries directives: '##gff-version 3', "
+        "'##sequence-region <seqid> <start> <end>' for ~88% of the stored seqids (declared end = a middle feature end of that "
+        "seqid, the multiple of 2^17 below one, just below the largest end, or (20%) at / beyond every feature; 12% a second line "
+        "for the same seqid), for 1-3 seqids without features (also spellings differing in letter case), other '##' directives; "
+        "70% of the lines at the top, the others before the first feature of their seqid; 20-40% of the queries on such a "
+        "database (any form) have their end beyond the declared end of the queried seqid, placed on a feature that ends / "
+        "starts beyond it")
 REQUIRED = ["queries executed", "result rows compared", "sql: bin clause present", "sql: bin clause absent",
             "sql: region bin clause with 9..899 bins", "sql: limit bin clause with 9..899 bins", "sql: region within, both bounds in range, no bin clause (>= 900 bins)",
             "sql: limit, no bin clause (>= 900 bins)", "queries with an end >= 2**29", "one-sided queries",
@@ -112,11 +134,38 @@ REQUIRED = ["queries executed", "result rows compared", "sql: bin clause present
             "big: large region() generators consumed in chunks with complete queries in between",
             "big: queries answered between the chunks of a large generator",
             "big: two large generators consumed alternately"] + \
-           ["big: such answers, form region/%s" % f for f, _ in G.REGION_FORMS]
+           ["big: such answers, form region/%s" % f for f, _ in G.REGION_FORMS] + \
+           ["rewritten: database files built", "rewritten: databases reopened before the queries",
+            "rewritten: update(merge_strategy='replace') calls",
+            "rewritten: add_relation() calls whose parent_func / child_func set other coordinates",
+            "rewritten: queries that the imported coordinates of a rewritten row would have matched (not returned): region",
+            "rewritten: queries that the imported coordinates of a rewritten row would have matched (not returned): limit="] + \
+           ["rewritten: rows now stored with the coordinates of another genomic bin: %s" % h for h in HOW_NAMES] + \
+           ["rewritten: such answers with a bin clause in the SQL, row rewritten by %s" % h for h in HOW_NAMES] + \
+           ["rewritten: rows rewritten into another bin of level %d (2^%d bases)" % (k, 17 + 3 * k) for k in range(5)] + \
+           ["rewritten: rows rewritten into coordinates beyond 2^29"] + \
+           ["rewritten: such answers with a bin clause in the SQL: %s" % w for w in
+            ("region within", "limit= overlap", "limit= within", "all_features(limit=)", "features_of_type(limit=)",
+             "children(limit=)", "parents(limit=)")] + \
+           ["rewritten: such answers with a bin clause in the SQL, form region/%s" % f for f in ("tuple", "string", "feature", "kw")] + \
+           ["rewritten: answers holding a row rewritten into another bin: region overlap",
+            "directives: sequence-region rows found in the directives table of the database (plain SQL)",
+            "directives: stored features reaching beyond the end declared for their seqid",
+            "directives: ##sequence-region lines naming a seqid that no feature has",
+            "directives: queries on a seqid that no ##sequence-region line names (others are named)",
+            "directives: end-only answers holding a feature that reaches beyond the declared end"] + \
+           ["directives: %s: %s" % (w, k) for w in ("completely_within answers holding a feature that ends beyond the declared end",
+                                                   "overlap answers holding a feature that starts beyond the declared end")
+            for k in ("region", "limit=")] + \
+           ["directives: such answers, form %s" % f for f in ("region/tuple", "region/string", "region/feature", "region/kw",
+                                                              "all_features/tuple", "features_of_type/tuple", "children/tuple",
+                                                              "parents/tuple", "all_features/string")]
 REQUIRED_CLASSES = ["region/%s/%s" % (f, w) for f, _ in G.REGION_FORMS for w in ("overlap", "within")] + \
                    ["%s/%s/%s" % (a, f, w) for a in ("all_features", "features_of_type", "children", "parents")
                     for f, _ in G.LIMIT_FORMS for w in ("overlap", "within")] + \
-                   ["interleave/nested", "interleave/schedule", "handles/second handle updates the file", "big/one large answer"]
+                   ["interleave/nested", "interleave/schedule", "handles/second handle updates the file", "big/one large answer",
+                    "rewritten/rows rewritten with other coordinates",
+                    "directives/queries on a database imported from a file with ##sequence-region lines"]
 ASSUMPTIONS = [
     "one bound only: a result R is accepted when {strictly beyond the bound} <= R <= {at or beyond the bound}; for "
     "completely_within the deciding coordinate is the feature's start (only start given) / end (only end given), "
@@ -140,6 +189,14 @@ ASSUMPTIONS = [
     "start == end == the start or the end coordinate of such a feature - the unchanged tree returns the feature there (all "
     "region forms; e.g. feature 1001..1000, region(('c', 1001, 1001)) and region(('c', 1000, 1000))) although the comparisons "
     "say no, while limit= follows the comparisons; those features may or may not be returned and are counted in a monitor",
+    "rewritten rows: 'the stored features' are the rows of the file after create_db(merge_strategy='replace') / update(..., "
+    "merge_strategy='replace') / add_relation(parent_func=, child_func=) returned, read with plain sqlite3 (start, end, seqid, "
+    "strand, featuretype columns and the level-1 rows of the relations table); WHAT those calls must store is not judged here "
+    "(a content other than the expected one is only counted; a call that raises is skipped and counted); the stored bin column "
+    "is shown in a violation's detail but is not itself compared",
+    "directives ('##...' lines, wherever they stand in the file) are no features and take no part in the statement: the answers "
+    "of a database imported from a file with directives are those of the scan of its features; a '##sequence-region' line does "
+    "not bound the features of its seqid (circular genomes, stale directives)",
 ]
 QUICK_SHARDS = 4
 THOROUGH_SHARDS = 16
@@ -159,7 +216,7 @@ def setup(ctx):
 def get_db(ctx, setp):
     import gffutils
 
-    key = (setp["seed"], setp["n"], bool(setp.get("moved")), setp.get("flavour"))
+    key = (setp["seed"], setp["n"], bool(setp.get("moved")), setp.get("flavour"), setp.get("directives"))
     if key not in _DBS:
         for k in list(_DBS):
             try:
@@ -168,12 +225,17 @@ def get_db(ctx, setp):
                 pass
         SET = G.make_set(setp["seed"], setp["n"], flavour=setp.get("flavour"))
         SET["by_id"] = {f["id"]: f for f in SET["features"]}
+        text, D = SET["text"], None
+        if setp.get("directives") is not None:
+            # the same features in a file that carries directives ('##sequence-region <seqid> <start> <end>' and others)
+            D = G.make_directives(setp["directives"], SET)
+            text, SET["declared"] = D["text"], D["declared"]
         if setp.get("moved"):
             # the same feature set, but every line is written at a placeholder position and moved to its real
             # coordinates by a transform: the stored bin has to be computed from the coordinates actually stored
             where = {f["id"]: (f["start"], f["end"]) for f in SET["features"]}
             lines = []
-            for ln in SET["text"].split("\n"):
+            for ln in text.split("\n"):
                 c = ln.split("\t")
                 if len(c) >= 9 and not ln.startswith("#"):
                     c[3], c[4] = "1", "2"
@@ -185,7 +247,7 @@ def get_db(ctx, setp):
             db = gffutils.create_db("\n".join(lines), ":memory:", from_string=True, transform=move)
             ctx.mon("databases built through a coordinate-moving transform")
         else:
-            db = gffutils.create_db(SET["text"], ":memory:", from_string=True)
+            db = gffutils.create_db(text, ":memory:", from_string=True)
         rows = db.conn.execute("SELECT id, seqid, featuretype, start, end, strand, bin FROM features").fetchall()
         stored = {r[0]: tuple(r)[1:] for r in rows}
         model = {f["id"]: (f["seqid"], f["featuretype"], f["start"], f["end"], f["strand"]) for f in SET["features"]}
@@ -204,6 +266,15 @@ def get_db(ctx, setp):
         ctx.mon("features imported", len(rows))
         if setp.get("flavour") == "reversed":
             ctx.mon("reversed: features stored with start > end", sum(1 for r in rows if r[3] > r[4]))
+        if D is not None:
+            kept = [r[0] for r in db.conn.execute("SELECT directive FROM directives")]
+            ctx.mon("directives: databases imported from a file with ##sequence-region lines")
+            ctx.mon("directives: ##sequence-region lines in the imported files", D["lines"])
+            ctx.mon("directives: sequence-region rows found in the directives table of the database (plain SQL)",
+                    sum(1 for x in kept if str(x).split()[:1] == ["sequence-region"]))
+            ctx.mon("directives: ##sequence-region lines naming a seqid that no feature has", D["others"])
+            ctx.mon("directives: stored features reaching beyond the end declared for their seqid",
+                    sum(1 for f in SET["features"] if max(f["start"], f["end"]) > D["declared"].get(f["seqid"], 1 << 62)))
         _DBS[key] = (db, SET, {k: v[5] for k, v in stored.items()})
         sqltrace.reset()
         contracts.drain()
@@ -297,6 +368,8 @@ def execute(ctx, case):
         return execute_handles(ctx, case)
     if case["kind"] == "big":
         return execute_big(ctx, case)
+    if case["kind"] == "rewritten":
+        return execute_rewritten(ctx, case)
     q = case["query"]
     db, SET, stored_bin = get_db(ctx, case["set"])
     feats = SET["features"]
@@ -390,12 +463,38 @@ def observe_reversed(ctx, q, SET, uni, lower):
                     break
 
 
+def observe_declared(ctx, q, SET, lower):
+    """Databases whose file carried ##sequence-region lines: which answers reach beyond the declared end of the queried seqid."""
+    E = SET["declared"].get(q["seqid"])
+    if E is None:
+        if q["seqid"] is not None:
+            ctx.mon("directives: queries on a seqid that no ##sequence-region line names (others are named)")
+        return
+    if q["end"] is None or q["end"] <= E:
+        return
+    kind = "region" if q["api"] == "region" else "limit="
+    ctx.mon("directives: queries whose end lies beyond the end declared for the queried seqid: %s" % kind)
+    by_id = SET["by_id"]
+    if q["start"] is None:
+        if any(max(by_id[i]["start"], by_id[i]["end"]) > E for i in lower):
+            ctx.mon("directives: end-only answers holding a feature that reaches beyond the declared end")
+    elif q["within"]:
+        if any(by_id[i]["end"] > E for i in lower):
+            ctx.mon("directives: completely_within answers holding a feature that ends beyond the declared end: %s" % kind)
+            ctx.mon("directives: such answers, form %s/%s" % (q["api"], q["form"]))
+    elif any(by_id[i]["start"] > E for i in lower):
+        ctx.mon("directives: overlap answers holding a feature that starts beyond the declared end: %s" % kind)
+        ctx.mon("directives: such answers, form %s/%s" % (q["api"], q["form"]))
+
+
 def observe_class(ctx, q, SET, uni, lower, present):
     """Monitors of the special workload classes (called for queries that agreed with the scan)."""
     kind = "region" if q["api"] == "region" else "limit"
     wo = "within" if q["within"] else "overlap"
     if SET.get("flavour") == "reversed":
         observe_reversed(ctx, q, SET, uni, lower)
+    if SET.get("declared") is not None:
+        observe_declared(ctx, q, SET, lower)
     other = SET.get("partner", {}).get(q["seqid"])
     if other is not None:
         twin, _ = M.expected(uni, other, q["start"], q["end"], q["within"], q["strand"], q["ft"])
@@ -539,7 +638,11 @@ def execute_interleave(ctx, case):
 def file_content(path):
     """The features of the database file as a model feature list, read with plain sqlite3 (never through gffutils);
     "parents" = the level-1 rows of the relations table.  None when the table holds rows of another level."""
-    d = dbdump.dump(path)
+    return content_of(dbdump.dump(path))
+
+
+def content_of(d):
+    """file_content of an already read dump."""
     if any(lv != 1 for _, _, lv in d["relations"]):
         return None
     up = {}
@@ -840,6 +943,204 @@ def execute_big(ctx, case):
     return ok_all and large > 0
 
 
+# ---------------------------------------------------------------------------------------------------------
+HOW = dict(zip(("create", "update", "relation"), HOW_NAMES))
+
+
+def execute_rewritten(ctx, case):
+    """kind "rewritten": {"set": set parameters, "rw": seed of G.make_rewrite, "fresh": bool, "queries": [query...]}.
+
+    The feature set is imported into a database FILE and a part of its rows is REWRITTEN with other coordinates: lines that
+    repeat an ID under merge_strategy='replace' (in the same create_db call, or in later update() calls), and add_relation()
+    calls whose parent_func / child_func set other coordinates.  Then every query form is answered (by the FeatureDB object
+    that did the rewriting, or by one opened afterwards) and compared with the scan of what the file holds NOW, read with
+    plain sqlite3.  Returns True when bin-filtered answers held rows that were rewritten into another genomic bin."""
+    import gffutils
+
+    setp = case["set"]
+    SET = G.make_set(setp["seed"], setp["n"], flavour=setp.get("flavour"))
+    RW = G.make_rewrite(case["rw"], SET)
+    path, gff = ctx.tmp(".db"), ctx.tmp(".gff3")
+    db = None
+    hits = 0
+
+    def write(text):
+        with open(gff, "w", encoding="utf-8", newline="") as fh:
+            fh.write(text)
+
+    how = {}                   # id -> how its row was rewritten last
+    try:
+        try:
+            steps = list(RW["steps"])
+            if RW["mode"] == "create":
+                write(SET["text"] + G.text_of(steps[0]["feats"]))
+                db = gffutils.create_db(gff, path, merge_strategy="replace")
+                how.update((f["id"], "create") for f in steps[0]["feats"])
+                steps = steps[1:]
+            else:
+                write(SET["text"])
+                db = gffutils.create_db(gff, path)
+        except Exception as ex:
+            ctx.skip("rewritten: building the database file raised %s (import is not judged here)" % type(ex).__name__)
+            return False
+        try:
+            for st in steps:
+                if st["how"] == "replace":
+                    write(G.text_of(st["feats"]))
+                    db.update(gff, merge_strategy="replace", make_backup=False)
+                    how.update((f["id"], "update") for f in st["feats"])
+                    ctx.mon("rewritten: update(merge_strategy='replace') calls")
+                else:
+                    to, pid, cid = st["to"], st["parent"], st["child"]
+
+                    def pf(parent, child, xy=to.get(pid)):
+                        parent.start, parent.end = xy
+                        return parent
+
+                    def cf(parent, child, xy=to.get(cid)):
+                        child.start, child.end = xy
+                        return child
+
+                    db.add_relation(db[pid] if st["as_object"] else pid, db[cid] if st["as_object"] else cid, 1,
+                                    parent_func=pf if pid in to else None, child_func=cf if cid in to else None)
+                    how.update((i, "relation") for i in to)
+                    ctx.mon("rewritten: add_relation() calls whose parent_func / child_func set other coordinates")
+        except Exception as ex:
+            # what update() / add_relation() do is C10's business; here they are the premise
+            ctx.skip("rewritten: update() / add_relation() raised %s" % type(ex).__name__)
+            return False
+        ctx.mon("rewritten: database files built")
+        if case.get("fresh"):
+            db.conn.close()
+            db = gffutils.FeatureDB(path)
+            ctx.mon("rewritten: databases reopened before the queries")
+        d = dbdump.dump(path)
+        feats = content_of(d)
+        if feats is None:
+            ctx.skip("rewritten: the relations table holds rows of a level other than 1 (two-level hierarchy expected)")
+            return False
+        stored = {f["id"]: f for f in feats}
+        stored_bin = {f["id"]: f["bin"] for f in d["features"]}
+        if len(stored) != len(feats):
+            ctx.skip("rewritten: the file holds several rows under one id")
+            return False
+        norm = lambda fs: sorted((f["id"], f["seqid"], f["featuretype"], f["strand"], f["start"], f["end"], sorted(f["parents"]))
+                                 for f in fs)
+        if norm(feats) != norm(RW["final"]):
+            ctx.mon("rewritten: the file's content is not what the rewriting was expected to store (C10's business; the scan of "
+                    "the file stays the reference)")
+        # evidence: which rows are now stored with the coordinates of another genomic bin than the imported ones
+        movedbin = set()
+        for i, (oa, ob) in RW["old"].items():
+            f = stored.get(i)
+            if f is None or (f["start"], f["end"]) == (oa, ob):
+                continue
+            ctx.mon("rewritten: rows stored with other coordinates than imported: %s" % HOW[how.get(i, "update")])
+            key = G.bin_key(f["start"], f["end"])
+            if key != G.bin_key(oa, ob):
+                movedbin.add(i)
+                ctx.mon("rewritten: rows now stored with the coordinates of another genomic bin: %s" % HOW[how.get(i, "update")])
+                ctx.mon("rewritten: rows rewritten into %s" % ("coordinates beyond 2^29" if key == "out" else
+                                                               "another bin of level %d (2^%d bases)" % (key[0], 17 + 3 * key[0])))
+        ghosts = [dict(stored[i], start=oa, end=ob) for i, (oa, ob) in RW["old"].items() if i in stored]
+        for q in case["queries"]:
+            if q["id"] is not None and q["id"] not in stored:
+                ctx.mon("rewritten: queries naming a feature that is not stored (not executed)")
+                continue
+            uni = M.universe(feats, q["api"], q["id"])
+            lower, upper = expect(ctx, uni, q)
+            sqltrace.reset()
+            ctx.mon("queries executed")
+            ctx.mon("rewritten: queries answered")
+            kind = "region" if q["api"] == "region" else "limit="
+            try:
+                got = call(db, q)
+            except Exception as ex:
+                report(ctx, case, "rewritten raised", {"why": "rows rewritten after the import: %s query raised %s" % (kind, repr(ex)[:300]),
+                                                       "query": describe(q), "mode": RW["mode"]})
+                return False
+            present, nb = bin_clause()
+            ctx.mon("result rows compared", len(got))
+            bad = M.judge(got, lower, upper)
+            if bad:
+                wo = "completely_within" if q["within"] else "overlap"
+                detail = {"why": "rows rewritten after the import (%s): %s %s result differs from the scan of the coordinates now "
+                                 "stored in the file" % (RW["mode"], kind, wo), "query": describe(q), "n_got": len(got),
+                          "n_expected": len(lower), "sql bin clause": present, "set": setp, "rw": case["rw"]}
+                for k, ids in bad.items():
+                    detail[k] = [[i, stored[i]["seqid"], stored[i]["start"], stored[i]["end"], "stored bin %s" % stored_bin.get(i),
+                                  "imported as %s" % (RW["old"].get(i),), HOW.get(how.get(i), "not rewritten")]
+                                 for i in ids[:6] if i in stored]
+                    detail["n " + k] = len(ids)
+                if bad["missing"] and set(bad["missing"]) <= movedbin and not bad["unexpected"]:
+                    detail["why"] += ": rows rewritten into another genomic bin are missing"
+                report(ctx, case, "rewritten:%s:%s" % (kind, wo), detail)
+                return False
+            two = q["start"] is not None and q["end"] is not None
+            wo = "within" if q["within"] else "overlap"
+            mv = [i for i in lower if i in movedbin]
+            if mv:
+                ctx.mon("rewritten: answers holding a row rewritten into another bin: %s %s" % (kind, wo))
+                if present:
+                    hits += 1
+                    ctx.mon("rewritten: such answers with a bin clause in the SQL: %s %s" % (kind, wo))
+                    ctx.mon("rewritten: such answers with a bin clause in the SQL: %s" % (q["api"] if kind == "region" else q["api"] + "(limit=)"))
+                    ctx.mon("rewritten: such answers with a bin clause in the SQL, form %s/%s" % (q["api"], q["form"]))
+                    for h in set(how.get(i) for i in mv):
+                        ctx.mon("rewritten: such answers with a bin clause in the SQL, row rewritten by %s" % HOW.get(h, "?"))
+            if two and ghosts:
+                gone = M.expected(M.universe(ghosts, q["api"], q["id"]), q["seqid"], q["start"], q["end"], q["within"],
+                                  q["strand"], q["ft"])[0]
+                if set(gone) - set(lower):
+                    ctx.mon("rewritten: queries that the imported coordinates of a rewritten row would have matched (not returned): %s" % kind)
+    finally:
+        if db is not None:
+            try:
+                db.conn.close()
+            except Exception:
+                pass
+        for p in (path, gff, path + "-journal", path + "-wal", path + "-shm"):
+            if os.path.exists(p):
+                os.unlink(p)
+        for v in contracts.drain():
+            report(ctx, case, "contract " + v.get("contract", "?"), v)
+    return hits > 0
+
+
+def gen_rewritten(rng):
+    """A 'rewritten' case: a small feature set, a rewriting (G.make_rewrite) and 50-70 queries drawn against what the file
+    should hold afterwards: 55% anchored on the rewritten rows' new coordinates, 15% on their imported coordinates."""
+    setp = {"seed": rng.randrange(1 << 30), "n": rng.choice([60, 90, 120])}
+    if rng.random() < 0.3:
+        setp["flavour"] = "binends"
+    SET = G.make_set(setp["seed"], setp["n"], flavour=setp.get("flavour"))
+    rw = rng.randrange(1 << 30)
+    RW = G.make_rewrite(rw, SET)
+    final = RW["final"]
+    new = [f for f in final if f["id"] in RW["old"]]
+    used = sorted({x for f in new for x in (f["start"], f["end"])})
+    FINAL = dict(SET, features=final, focus=sorted(set(SET["focus"]) | set(rng.sample(used, min(len(used), 20)))))
+    hubs_new = [h for h in SET["hubs"] if any(h in f["parents"] for f in new)] or SET["hubs"]
+    NEW = dict(FINAL, features=new, hubs=hubs_new)
+    OLD = dict(FINAL, features=[dict(f, start=RW["old"][f["id"]][0], end=RW["old"][f["id"]][1]) for f in new], hubs=hubs_new)
+    anchored = any(f["parents"] for f in new)
+    moved_hubs = [f for f in new if f["id"] in SET["hubs"]]
+    under = [f for f in final if any(h["id"] in f["parents"] for h in moved_hubs)]
+    UP = dict(FINAL, features=moved_hubs + under)           # parents(limit=) of the children of rewritten parent features
+    qs = []
+    for _ in range(rng.randrange(50, 71)):
+        r = rng.random()
+        if r < 0.08 and under:
+            for _ in range(40):
+                q = G.gen_query(rng, UP)
+                if q["api"] == "parents":
+                    break
+        else:
+            q = G.gen_query(rng, NEW if r < 0.6 and anchored else OLD if r < 0.75 and anchored else FINAL)
+        qs.append(q)
+    return {"kind": "rewritten", "set": setp, "rw": rw, "fresh": rng.random() < 0.5, "queries": qs}
+
+
 def gen_handles(rng, n):
     """A 'handles' case: small feature set, an update by a second handle, one round of queries per state of the file.
     The queries are drawn against the union of everything that is ever stored, so that round 0 already names the seqid
@@ -985,12 +1286,19 @@ def run(ctx):
         useful = execute(ctx, case)
         ctx.case((case["set"]["seed"], case["upd"], case["b_early"]), bool(useful), cls="handles/second handle updates the file",
                  sample={"set": case["set"], "upd": case["upd"], "rounds": [len(r) for r in case["rounds"]]})
+    # rows rewritten after the import with other coordinates (replace / add_relation), then every query form
+    for _ in range(ctx.budget(48, 16 * 48)):
+        case = gen_rewritten(rng)
+        useful = execute(ctx, case)
+        ctx.case((case["set"]["seed"], case["rw"], case["fresh"]), bool(useful), cls="rewritten/rows rewritten with other coordinates",
+                 sample={"set": case["set"], "rw": case["rw"], "fresh": case["fresh"], "queries": len(case["queries"])})
     if ctx.shard % 4 == 0:
         # one LARGE answer (costs ~10 s, hence one shard of four)
         case = {"kind": "big", "seed": rng.randrange(1 << 30)}
         useful = execute(ctx, case)
         ctx.case(("big", case["seed"]), bool(useful), cls="big/one large answer", sample=case)
     first = rng.randrange(len(FLAVOURS))
+    with_directives = set(rng.sample(range(nsets), nsets // 2))
     for si in range(nsets):
         setp = {"seed": rng.randrange(1 << 30), "n": n}
         flavour = FLAVOURS[(si + first) % len(FLAVOURS)]
@@ -998,6 +1306,9 @@ def run(ctx):
             setp["flavour"] = flavour
         elif rng.random() < 0.35:
             setp["moved"] = True
+        if si in with_directives:
+            # the same kind of feature set, imported from a file that carries ##sequence-region (and other) directives
+            setp["directives"] = rng.randrange(1 << 30)
         _, SET, _ = get_db(ctx, setp)
         for qi in range(nq):
             if qi % 25 == 24:
@@ -1013,7 +1324,11 @@ def run(ctx):
                 mode = rng.choice(["wide", "wide", "binend", "binend", None])
             elif flavour == "reversed":
                 mode = rng.choice(["reversed", "reversed", None])
+            if "directives" in setp and rng.random() < (0.2 if mode else 0.4):
+                mode = "declared"
             q = G.gen_query(rng, SET, mode)
+            if "directives" in setp:
+                ctx.classes["directives/queries on a database imported from a file with ##sequence-region lines"] += 1
             case = {"kind": "query", "set": setp, "query": q}
             r = execute(ctx, case)
             s, e = q["start"], q["end"]
@@ -1058,6 +1373,11 @@ MANIFEST = {
             "region and limit= alike. One 'big' case per run holds more than 10 000 features, most of them sharing their "
             "(start, end) with others, inside one interval: every form of region() and all_features(limit=) must return every "
             "one exactly once, also when the generator is consumed in chunks between other queries on the same FeatureDB. "
+            "'rewritten' cases rewrite rows after the import with coordinates of another genomic bin (lines repeating an ID under "
+            "merge_strategy='replace' in create_db and update, add_relation with parent_func / child_func that move a feature) and "
+            "then ask every query form: the answers must be the scan of the coordinates now stored in the file. Half of the "
+            "databases are imported from files carrying '##sequence-region' (and other) directives for the queried and for other "
+            "seqids, with features reaching beyond the declared end and query ends beyond it: the answers are those of the scan. "
             "Held = no executed query disagreed.",
     "note": "Trusted: the scan in gvmon/models/C06.py, sqlite3. One-sided queries are judged by a sandwich (strictly beyond <= "
             "result <= at or beyond). Not covered: queries without any bound, empty featuretype collections, hierarchies deeper "
